@@ -139,7 +139,7 @@ func cmdSelftest(flags map[string]string) int {
 	var fxJob []int
 	bad := 0
 	for i, r := range res {
-		if r.NAborted > 0 || len(r.Paths) != 1 || r.Paths[0].Fixture == nil {
+		if r.NAborted > 0 || len(r.Paths) < 1 || r.Paths[0].Fixture == nil {
 			bad++
 			if bad <= 15 {
 				fmt.Printf("selftest: engine could not run %s %q: %v\n", jobs[i].ID, cases[i].Path, r.AbortMsgs)
